@@ -3,7 +3,7 @@ ENGINES = [
     {"name": "E2", "path": "mc/props/c06.py", "kind_free_text": "explicit-state breadth-first search over call histories of a real Record (state = history replayed on a fresh object, canonical state hash, invariants in every state, differential oracles)",
      "serves_properties": ["C06", "C08"]},
     {"name": "E1", "path": "mc/engine/core.py", "kind_free_text": "bounded exhaustive input enumeration of the real functions against set-of-bases / truth-table reference models, sharded over processes",
-     "serves_properties": ["C01", "C02", "C03", "C04", "C05", "C07", "C08", "C09", "C15", "C16"]},
+     "serves_properties": ["C01", "C02", "C03", "C04", "C05", "C07", "C08", "C09", "C14", "C15", "C16"]},
 ]
 NOT_APPLICABLE = {}
 CHECKS = {
@@ -77,4 +77,11 @@ CHECKS = {
                      "numbers) with both header settings goes through the real pre_process_sequences in-process; ids must be pairwise distinct, legal, "
                      "<= 16 characters unless long headers are allowed, and remember their original. Gene names: every ordered triple of a 9-entry menu through add_cds_feature.",
                 note="Pool of 44 ids; no-op gene finding module; only record ids (not names) are judged for length/legality, as in the statement."),
+    "C14": dict(engine="E1", level="exploration", ref="DESIGN.md 5/C14",
+                technique="bounded exhaustive enumeration of domain strings (representative and full alphabets) and head/tail string pairs through the real module builder vs layout rules written from the docstring",
+                text="Every domain string up to depth 3-5 over one representative per behavioural class of the ~75 profile names (full alphabet to depth 3 "
+                     "as a cross-check) goes through build_modules_for_cds: no exception, in-order loss-free partition, per-module layout rules, "
+                     "completeness and trans-AT flags recomputed independently, Module.from_json(to_json) identity. Every head x tail pair (three strand "
+                     "pairs) goes through combine_modules: never raises, merged = head+tail(+trailing KR) in order, complete, bookkeeping exact.",
+                note="Label sets are taken as data from the module, the rules are independent; bounded-exhaustive rather than a state graph because the builder's look-ahead makes prefixes non-mergeable (see DESIGN)."),
 }
